@@ -45,6 +45,12 @@ pub fn gen_base(rng: &mut Rng) -> Scenario {
     if rng.chance(1, 8) {
         sc.prealloc = rng.pick(&[0usize, 1, 7, 64]);
     }
+    // tuning knobs (hook): a tiny decoder buffer makes the multi-iteration decode loop and its
+    // buffer-end character splits run on ordinary short text; the slow path is also forced
+    if rng.chance(1, 3) {
+        sc.text_buf = rng.pick(&[8usize, 13, 16, 31, 64]);
+    }
+    sc.no_fast_text = rng.chance(1, 6);
     sc
 }
 
